@@ -142,8 +142,22 @@ def run(ctx):
     thorough = ctx.tier == "thorough"
     eng = mk_engine(contracts=ci.CONTRACTS, inline=ci.INLINE, field_classes=ci.FIELD_CLASSES)
     ctx.verify(eng, ci.CONTRACTS, min_obligations={c.key: 5 for c in ci.CONTRACTS})
-    ctx.assumptions.append("Inv_conn/Inv_refs are assumed on entry of every public operation (they hold for freshly "
-                           "constructed objects: empty conns / Refs) - established by construction, not proved")
+    ctx.verify(ci.init_engine(), ci.VERIFY_INIT)
+    off = ci.audit_ownership()
+    ctx.obligations += 1
+    if off:
+        from vcheck.core import Violation
+        ctx.violations.append(Violation("hdl21.instance:ownership-audit", f"conns / _connected_ports written outside "
+                              f"connect/replace/disconnect: {off[:3]}", {"property": "C04", "obligation":
+                              "frame/ownership-audit", "offenders": off}, False))
+    else:
+        ctx.discharged += 1
+        ctx.by_backend["ast-audit"] = ctx.by_backend.get("ast-audit", 0) + 1
+    ctx.assumptions.append("Inv_conn/Inv_refs hold in every reachable state by induction: established by the Instance "
+                           "constructor (proved), preserved by connect/replace/disconnect (proved), and nothing else "
+                           "writes the two structures (syntactic audit). InstanceArray / InstanceBundle constructors "
+                           "run the same base constructor but are not separately verified; elaboration passes change "
+                           "connections only through the three methods")
     rnd = random.Random(ctx.seed)
     cases = itertools.chain(small_histories(), histories(rnd, 30000 if thorough else 4000, 6 if thorough else 4))
     ctx.run_bounded(
